@@ -194,6 +194,23 @@ def parseDocWith (ev : Env) (strict : Bool) (s : Str) : Except XErr (IDoc × Str
            | .ok () => if strict && !strictDoc ev d then .error .reference else .ok (d, rest))
   | .ok _ _ => .error .shape
 
+/-- the same with the fuel of the interpreter as a parameter (`parseDocWith` supplies `xmlFuel s`) -/
+def parseDocFuel (ev : Env) (strict : Bool) (f : Nat) (s : Str) : Except XErr (IDoc × Str) :=
+  match run ev f (.nt N.document) s with
+  | .fuel => .error .fuel
+  | .fail => .error .syntax
+  | .ok (.node _ c) rest =>
+      if maxDepth_element != 0 && c.elemDepth > maxDepth_element then .error .syntax else
+      if maxDepth_children != 0 && c.ntDepth N.children > maxDepth_children then .error .syntax else
+      (match absDocument c with
+       | .error e => .error e
+       | .ok d => match checkDoc d with
+           | .error e => .error e
+           | .ok () => if strict && !strictDoc ev d then .error .reference else .ok (d, rest))
+  | .ok _ _ => .error .shape
+
+theorem parseDocWith_eq (ev : Env) (strict : Bool) (s : Str) : parseDocWith ev strict s = parseDocFuel ev strict (xmlFuel s) s := rfl
+
 /-- the model of the code as it is (grammar translated from the current source) -/
 def parseDoc (s : Str) : Except XErr (IDoc × Str) := parseDocWith env false s
 
@@ -229,7 +246,7 @@ def escapeQ (v : Str) : Str := if v.contains '"' then '\'' :: v ++ ['\''] else '
 
 def printPiece : Piece → Str
   | .text s => s
-  | .charRef d h => (if h then "&#x".toList else "&#".toList) ++ d ++ [';']
+  | .charRef d h => (if h then ['&', '#', 'x'] else ['&', '#']) ++ d ++ [';']
   | .entRef n => '&' :: n ++ [';']
   | .peRef n => '%' :: n ++ [';']
 
@@ -245,21 +262,21 @@ def quoteAttr (v : Str) : Str :=
 def printAttr (a : Attr) : Str := a.name.text ++ '=' :: quoteAttr (printPieces a.vals)
 
 def printPI (t : Str) (d : Option Str) : Str :=
-  "<?".toList ++ t ++ (match d with | some x => ' ' :: x | none => []) ++ "?>".toList
+  ['<', '?'] ++ t ++ (match d with | some x => ' ' :: x | none => []) ++ ['?', '>']
 
 mutual
 def printItem : Item → Str
   | .text s => s
   | .charRef d h => printPiece (.charRef d h)
   | .entRef n => printPiece (.entRef n)
-  | .cdata s => "<![CDATA[".toList ++ s ++ "]]>".toList
+  | .cdata s => ['<', '!', '[', 'C', 'D', 'A', 'T', 'A', '['] ++ s ++ [']', ']', '>']
   | .pi t d => printPI t d
-  | .comment s => "<!--".toList ++ s ++ "-->".toList
+  | .comment s => ['<', '!', '-', '-'] ++ s ++ ['-', '-', '>']
   | .elem n attrs kids =>
       let head := '<' :: n.text ++ attrs.flatMap (fun a => ' ' :: printAttr a)
       match kids with
-      | [] => head ++ " />".toList
-      | _ => head ++ '>' :: printItems kids ++ "</".toList ++ n.text ++ ['>']
+      | [] => head ++ [' ', '/', '>']
+      | _ => head ++ '>' :: printItems kids ++ ['<', '/'] ++ n.text ++ ['>']
 def printItems : List Item → Str
   | [] => []
   | i :: r => printItem i ++ printItems r
@@ -305,7 +322,7 @@ def printDoctype (d : Doctype) : Str :=
      | ks => " [".toList ++ ks.flatMap printDtdItem ++ [']']) ++ ['>']
 
 def printTop : TopItem → Str
-  | .comment s => "<!--".toList ++ s ++ "-->".toList
+  | .comment s => ['<', '!', '-', '-'] ++ s ++ ['-', '-', '>']
   | .pi t d => printPI t d
   | .doctype d => printDoctype d
   | .elem e => printItem e
@@ -315,7 +332,7 @@ def printDoc (d : IDoc) : Str :=
    | some v => "<?xml version=\"".toList ++ v ++ ['"'] ++
        (match d.encoding with | some e => (if e.isEmpty then [] else " encoding=\"".toList ++ e ++ ['"']) | none => []) ++
        (match d.standalone with | some b => " standalone=\"".toList ++ (if b then "yes" else "no").toList ++ ['"'] | none => []) ++
-       "?>".toList
+       ['?', '>']
    | none => []) ++ d.kids.flatMap printTop
 
 end XmlRs
